@@ -145,7 +145,7 @@ class Interp:
         self.fn = fn
         self.dropped.extend(f"{contract['qualname']}: {d}" for d in fn.dropped)
         contract['_sha'] = fn.sha()
-        if contract.get('function_symbol'):
+        if contract.get('function_symbol') or contract.get('frame'):
             self.check_purity(fn, contract)
         loops = frontend.loops_of(fn.node)
         self.loop_ord = {id(n): i + 1 for i, n in enumerate(loops)}
@@ -178,8 +178,31 @@ class Interp:
         return self.obligations
 
     def check_purity(self, fn, contract):
-        """Syntactic frame check behind `function_symbol`: no global statement, no RNG, no clock, no file access."""
+        """Syntactic frame check behind `function_symbol` / `frame`: the function reads only its parameters and locals:
+        no `global`, no RNG / clock / file access, no module-level mutable object, and every same-module callee is
+        itself under contract (an uncontracted callee could touch anything)."""
         bad = []
+        tree, _ = frontend.load_module(contract['module'])
+        mutable_globals, module_funcs = set(), set()
+        for n in tree.body:
+            if isinstance(n, (ast.FunctionDef, ast.ClassDef)):
+                module_funcs.add(n.name)
+            tgt = None
+            if isinstance(n, ast.Assign) and len(n.targets) == 1 and isinstance(n.targets[0], ast.Name):
+                tgt, val = n.targets[0].id, n.value
+            elif isinstance(n, ast.AnnAssign) and isinstance(n.target, ast.Name) and n.value is not None:
+                tgt, val = n.target.id, n.value
+            if tgt is not None:
+                if isinstance(val, (ast.Dict, ast.List, ast.Set, ast.ListComp, ast.DictComp, ast.SetComp)) or (
+                        isinstance(val, ast.Call) and getattr(val.func, 'id', getattr(val.func, 'attr', '')) in (
+                            'dict', 'list', 'set', 'Counter', 'defaultdict', 'deque', 'OrderedDict')):
+                    mutable_globals.add(tgt)
+        local_names = {a.arg for a in fn.node.args.args} | {a.arg for a in fn.node.args.kwonlyargs}
+        for n in ast.walk(fn.node):
+            if isinstance(n, (ast.Assign, ast.AugAssign, ast.For, ast.AnnAssign)):
+                tg = n.targets if isinstance(n, ast.Assign) else [n.target]
+                for t in tg:
+                    self._target_names(t, local_names)
         for n in ast.walk(fn.node):
             if isinstance(n, ast.Global):
                 bad.append('global ' + ','.join(n.names))
@@ -187,10 +210,17 @@ class Interp:
                 d = self.dotted(n)
                 if d and (d.startswith(('random.', 'np.random.', 'numpy.random.', 'time.', 'os.')) or d in ('random', 'time')):
                     bad.append(d)
-            if isinstance(n, ast.Call) and isinstance(n.func, ast.Name) and n.func.id in ('open', 'input', 'timer'):
-                bad.append(n.func.id)
+            if isinstance(n, ast.Name) and isinstance(n.ctx, ast.Load) and n.id in mutable_globals and n.id not in local_names:
+                bad.append(f'module-level mutable object `{n.id}`')
+            if isinstance(n, ast.Call) and isinstance(n.func, ast.Name):
+                if n.func.id in ('open', 'input', 'timer'):
+                    bad.append(n.func.id)
+                if n.func.id in module_funcs and n.func.id not in local_names and self.lookup_contract(n.func.id) is None:
+                    bad.append(f'callee `{n.func.id}` is not under contract')
         name = self.oname('frame.pure')
-        self.obligations.append(Obligation(name, [], z3.BoolVal(not bad), text='reads only parameters: no globals/RNG/clock/files; found ' + repr(bad)))
+        self.obligations.append(Obligation(name, [], z3.BoolVal(not bad),
+                                           text='reads only parameters and locals (no globals / RNG / clock / files / module-level '
+                                                'mutable state / uncontracted callees); found: ' + repr(sorted(set(bad)))))
 
     def check_ensures(self, st, res, contract):
         res = self.coerce_result(res, contract.get('returns'))
